@@ -12,7 +12,7 @@ BASELINE_OFF = ("cd /repo && export GOFLAGS=-mod=mod GOPROXY=off GOSUMDB=off GOT
 CHECKS = {
     "C01": ("exploration",
             "bounded-exhaustive program family x deviation-bounded schedule exploration on the real runtime, reference interpreter as oracle",
-            "All programs of three template families (dataflow: 12 dimensions with at most 3 (quick) / 4 (thorough) leaving their base value; nested disabling: 0-3(4) wrapper levels x 6 controls x all valuations; two-level nests of mapped calls over arrays / typed maps, literal or produced at run time, non-split and split leaves) are executed on the real martian runtime (InvokePipeline, RefreshState/StepNodes loop, real metadata files) with an in-package job manager and a model job; every job's _args (and chunk_defs/chunk_outs of joins) and the top-level _outs are compared with an independent denotational interpreter of the MRO IR. For each program the default schedule and all 1-deviation schedules (each job held until quiescence, lagged, start-only; each StepNodes frontier-order occurrence permuted; thorough: pairs of held jobs, every map-iteration site of package core) are explored.",
+            "All programs of three template families (dataflow: 12 dimensions - among them array literals mixing a resolved struct literal with null or a reference, a producer that carries the disabled modifier, a consumer without outputs - with at most 3 (quick) / 4 (thorough) leaving their base value; nested disabling: 0-3(4) wrapper levels x 6 controls x all valuations; two-level nests of mapped calls over arrays / typed maps, literal or produced at run time, non-split and split leaves) are executed on the real martian runtime (InvokePipeline, RefreshState/StepNodes loop, real metadata files) with an in-package job manager and a model job; every job's _args (and chunk_defs/chunk_outs of joins) and the top-level _outs are compared with an independent denotational interpreter of the MRO IR. For each program the default schedule and all 1-deviation schedules (each job held until quiescence, lagged, start-only; a split job lingering one loop iteration after writing _stage_defs; each StepNodes frontier-order occurrence permuted; thorough: pairs of held jobs, every map-iteration site of package core) are explored.",
             "jobs follow the mrjob/adapter metadata protocol (model job); stage functions come from the fixed /verif library; nesting depth, sizes and the value alphabet are bounded by the families",
             "DESIGN.md 4/C01"),
     "C02": ("exploration",
@@ -32,12 +32,12 @@ CHECKS = {
             "DESIGN.md 4/C04"),
     "C11": ("exploration",
             "exhaustive enumeration of a key alphabet on the real encoders and journal-name parser (injectivity + parse round trip), plus end-to-end runs of nested mapped calls over adversarial key sets with an exhaustive per-metadata-object notification routing probe on the real refresh path",
-            "(a) Unit level on makeKeySafe / mapKeyFork.forkString / encodeJournalName / Node.parseRunFilename: every key that is a concatenation of at most 3 (thorough 4) atoms of an 18-atom alphabet ('.', '/', '%', '2E', '2F', '25', space, non-ASCII, 'fork', 'chnk1', 'u0123456789', 'complete', newline, ...) plus the adversarial key sets: fork directory name is one legal path component, journal form holds no '.' or '/', both encodings are injective over the whole set, and every journal file name built from 3 call names (including calls named fork1, fork_x, chnk0) x 5 fork-id shapes x chunk {none,0,12} x attempt {none,u0123456789} x 4 notifications parses back to exactly its components. (b) End to end: programs nesting 1-2 mapped calls over literal and run-time arrays (lengths 1,2,10,11; thorough 9,100,101) and typed maps with 18 key sets (dots, slashes, percent signs, text that looks encoded, spaces, empty key, non-ASCII, numeric-looking, fork/chunk/attempt/notification look-alikes, case pairs, keys that are suffixes/prefixes of one another, shell and JSON metacharacters) plus every unordered pair of the 56 keys of one or two atoms of {a,b,_,.,/,%,0} (1540 run-time key sets), non-split and split leaves (2 and 11 chunks). Each run on the real runtime must complete, give every job its denoted arguments, run every fork exactly once and return collections with exactly the keys; fork directories and journal names must be pairwise distinct. Then for EVERY split/join/chunk metadata object of the finished pipestance and each of {complete, errors, progress} the journal file its job would write is written and consumed by the real Node.refreshState: exactly that object must be notified, and a file of another attempt must notify nobody.",
+            "(a) Unit level on makeKeySafe / mapKeyFork.forkString / encodeJournalName / Node.parseRunFilename: every key that is a concatenation of at most 3 (thorough 4) atoms of an 18-atom alphabet ('.', '/', '%', '2E', '2F', '25', space, non-ASCII, 'fork', 'chnk1', 'u0123456789', 'complete', newline, ...) plus the adversarial key sets: fork directory name is one legal path component, journal form holds no '.' or '/', both encodings are injective over the whole set, and every journal file name built from 3 call names (including calls named fork1, fork_x, chnk0) x 5 fork-id shapes x chunk {none,0,12} x attempt {none,u0123456789} x 4 notifications parses back to exactly its components. (b) End to end: programs nesting 1-2 mapped calls over literal and run-time arrays (lengths 1,2,10,11; thorough 9,100,101) and typed maps with 18 key sets (dots, slashes, percent signs, text that looks encoded, spaces, empty key, non-ASCII, numeric-looking, fork/chunk/attempt/notification look-alikes, case pairs, keys that are suffixes/prefixes of one another, shell and JSON metacharacters) plus every unordered pair of the 56 keys of one or two atoms of {a,b,_,.,/,%,0} (1540 run-time key sets), non-split and split leaves (2 and 11 chunks). Each run on the real runtime must complete, give every job its denoted arguments, run every fork exactly once and return collections with exactly the keys; fork directories and journal names must be pairwise distinct. Then for EVERY split/join/chunk metadata object of the finished pipestance and each of {complete, errors, progress} the journal file its job would write is written and consumed by the real Node.refreshState: exactly that object must be notified, and a file of another attempt must notify nobody. (c) Attempt phase: for the first, a middle and the last job (thorough: every job) of every program the first attempt dies from a signal, mrp restarts automatically (clock of metadata.go advanced by the retry wait through a rewritten time.Now), and once the second attempt has started the first one - still alive - completes with stale outputs in its own directory under its own journal name: the attempts must have distinct directories, the stale completion must change nothing, the pipestance completes with the denoted values and only the dead job ran twice.",
             "keys whose encoded form exceeds the 255-byte file-name limit are outside the family (documented file-name restriction); journal files are written as mrjob writes them (base name of the run-file argument + phase prefix + name); the routing probe runs on the finished pipestance (all forks and chunks exist), routing during the run is covered indirectly by completion",
             "DESIGN.md 4/C11"),
     "C12": ("model_checking",
             "stateless model checking of the real implementation: exhaustive depth-first enumeration of all thread schedules up to a preemption bound under a cooperative scheduler (hand-written; sync primitives of the two semaphore files mechanically rewritten), in lock step with sequential reference models; exhaustive request-grid enumeration for the normalisation function",
-            "resource_semaphore.go and maxjobs_semaphore.go are compiled with sync.Mutex / sync.Cond / <-c / close(c) replaced by scheduler-aware equivalents, every go statement of package core by a scheduler spawn and executeLocal by a harness job body. ALL schedules with at most 2 (thorough 3) preemptions are enumerated for (a) 1550 ResourceSemaphore scenarios (limit 4; 2-3 threads doing Acquire(n)/hold/Release(n) with n in 1..5, re-acquiring threads, observers, an updater doing 1-2 of 8 UpdateActual/UpdateSize/UpdateFreeUsed operations): after EVERY critical section the real reserved / current size / queue are compared with a FIFO reference model stepped with the same operation, plus reserved <= limit, oldest-waiter-fits => granted, the holders' own ledger <= limit, and at quiescence the granted / refused / blocked threads equal the model's; (b) 1080 MaxJobsSemaphore scenarios (limits 1-2; blocking, non-blocking and never-released submitters, duplicate metadata, cancellation while waiting, FindDone): slot set equals the model after every critical section, slots <= limit, submitted-and-unfinished jobs <= limit, Acquire results equal the model's, nobody waits while a slot is free at quiescence; (c) 420 LocalJobManager.Enqueue scenarios through the real GetSystemReqs + cores->memory->vmem acquisition + deferred release (2-3 jobs from 9 request shapes incl. zero, fractional, over the limit, adaptive; with and without a vmem limit): summed reservations of simultaneously running jobs <= limits, every job runs, nothing stays reserved; (d) GetSystemReqs on a grid of 36 limit settings x 4 availabilities x 1456 requests. Every violating schedule is replayed and must reproduce before it is reported; replay files hold scenario + choice sequence.",
+            "resource_semaphore.go and maxjobs_semaphore.go are compiled with sync.Mutex / sync.Cond / <-c / close(c) replaced by scheduler-aware equivalents, every go statement of package core by a scheduler spawn and executeLocal by a harness job body. ALL schedules with at most 2 (thorough 3) preemptions are enumerated for (a) 1550 ResourceSemaphore scenarios (limit 4; 2-3 threads doing Acquire(n)/hold/Release(n) with n in 1..5, re-acquiring threads, observers, an updater doing 1-2 of 8 UpdateActual/UpdateSize/UpdateFreeUsed operations): after EVERY critical section the real reserved / current size / queue are compared with a FIFO reference model stepped with the same operation, plus reserved <= limit, oldest-waiter-fits => granted, the holders' own ledger <= limit, and at quiescence the granted / refused / blocked threads equal the model's; (b) 1080 MaxJobsSemaphore scenarios (limits 1-2; blocking, non-blocking and never-released submitters, duplicate metadata, cancellation while waiting, FindDone): slot set equals the model after every critical section, slots <= limit, submitted-and-unfinished jobs <= limit, Acquire results equal the model's, nobody waits while a slot is free at quiescence (a submitted job stays queued for one scheduling step before it runs, so FindDone meets slot holders that have not started); (c) 420 LocalJobManager.Enqueue scenarios through the real GetSystemReqs + cores->memory->vmem acquisition + deferred release (2-3 jobs from 9 request shapes incl. zero, fractional, over the limit, adaptive; with and without a vmem limit): summed reservations of simultaneously running jobs <= limits, every job runs, nothing stays reserved; (d) GetSystemReqs on a grid of 36 limit settings x 4 availabilities x 1456 requests. Every violating schedule is replayed and must reproduce before it is reported; replay files hold scenario + choice sequence.",
             "sync.Cond.Signal wakes the longest waiter (Go's notifyList); memory-model effects below mutex granularity are not modelled; that all accesses are under the mutexes is guarded by a free-running -race pass of the same scenario bodies on the unmodified files (checks/c12race, evidence key race_pass); availability updates come from a fixed menu rather than the OS; the remote manager's qsub path and procsSem are not driven; preemption bound 2/3, thread count <= 4; one known finding (request beyond int64)",
             "DESIGN.md 4/C12"),
     "C13": ("exploration",
@@ -47,12 +47,12 @@ CHECKS = {
             "DESIGN.md 4/C13"),
     "C14": ("exploration",
             "same executions as C04; reclamation and accounting oracles against a harness-measured removal ledger",
-            "On every completed run of the C04 exploration: no per-job tmp file and no chunk-level file of a splitting stage survives; no file written by a volatile stage (strict mode: any stage) survives unless named by a top-level output or retain; every path listed in any _vdrkill is gone; the pipestance-level report is bounded below by the regular files/bytes VDR actually removed (ledger measured by the rewritten os.RemoveAll hook immediately before each removal) and above by files+directories, and lists every removed files/ path; no file-system effect leaves the pipestance directory.",
-            "which directory nodes a kill report counts is implementation-defined, so the count/byte check is a two-sided bound (regular files <= report <= all entries); restart between partial and final clean-up is covered by C05's crash enumeration only for non-VDR shapes",
+            "On every completed run of the C04 exploration (including its kill-at-every-effect-and-restart phase): files named by a top-level output or a retain declaration were not reclaimed; no per-job tmp file and no chunk-level file of a splitting stage survives; no file written by a volatile stage (strict mode: any stage) survives unless named by a top-level output or retain; every path listed in any _vdrkill is gone; the pipestance-level report is bounded below by the regular files/bytes VDR actually removed (ledger measured by the rewritten os.RemoveAll hook immediately before each removal) and above by files+directories, and lists every removed files/ path; no file-system effect leaves the pipestance directory.",
+            "which directory nodes a kill report counts is implementation-defined, so the count/byte check is a two-sided bound (regular files <= report <= all entries); accounting across a kill is not decided (the report of the dead process is lost)",
             "DESIGN.md 4/C14"),
     "C05": ("fault_enumeration",
             "exhaustive crash-point enumeration over the numbered file-system effect history of the real runtime, restart through the real re-attach path",
-            "For 12 pipeline shapes the uninterrupted run on the real runtime gives a history of N numbered file-system effects (mrp's, via mechanically rewritten os.* calls, and the model jobs'); for EVERY n the process is made to die at effect n (plus torn variants of plain writes), the stale lock is removed and a second incarnation goes through ReattachToPipestance/Reset/RestartLocalJobs/LoadMetadata and the run loop; it must complete with the reference outputs and must not re-execute jobs whose completion marker had been written. For EVERY n also the handled-signal variant: a termination signal arrives before effect n, the process keeps running while a critical section is open, then the registered handlers (Pipestance.HandleSignal) run and the process is dead; _lock must be gone without operator help and the restart must succeed with the same oracles. Every interruption (kill and handled signal) is run twice: with the running jobs vanishing without a trace, and with their monitors recording '_errors: Caught signal terminated' as mrjob does on SIGTERM. Thorough adds a second crash at every effect of the restart for two shapes.",
+            "For 12 pipeline shapes, and 2 (thorough 6) pipelines whose top-level outputs are files that post-processing moves to outs/ (for these the final _outs text and the outs/ tree are compared with the uninterrupted run's), the uninterrupted run on the real runtime gives a history of N numbered file-system effects (mrp's, via mechanically rewritten os.* calls, and the model jobs'); for EVERY n the process is made to die at effect n (plus torn variants of plain writes), the stale lock is removed and a second incarnation goes through ReattachToPipestance/Reset/RestartLocalJobs/LoadMetadata and the run loop; it must complete with the reference outputs and must not re-execute jobs whose completion marker had been written. For EVERY n also the handled-signal variant: a termination signal arrives before effect n, the process keeps running while a critical section is open, then the registered handlers (Pipestance.HandleSignal) run and the process is dead; _lock must be gone without operator help and the restart must succeed with the same oracles. Every interruption (kill and handled signal) is run twice: with the running jobs vanishing without a trace, and with their monitors recording '_errors: Caught signal terminated' as mrjob does on SIGTERM. Thorough adds a second crash at every effect of the restart for two shapes.",
             "crash granularity = file-system call (no fsync/block model); in-flight local jobs die with mrp and recorded pids are dead; handled signals are delivered between file-system effects with the handler goroutine's work (wait for critical sections, run registered handlers) executed synchronously by the harness; os.Exit is the simulated death; the real mrp binary and OS signal delivery are not in the loop",
             "DESIGN.md 4/C05"),
     "C06": ("fault_enumeration",
@@ -67,7 +67,7 @@ CHECKS = {
             "DESIGN.md 4/C07"),
     "C08": ("exploration",
             "bounded-exhaustive input enumeration on the real parser/compiler (token sequences, single edits of a corpus, slot substitutions, nesting series, include graphs), crash/hang/position oracle",
-            "Every token sequence of length <=3 (thorough 4) over a 90-token adversarial alphabet through ParseSourceBytes/UncheckedParse/ParseValExp/FormatSrcBytes; for each of the repository's ~60 .mro fixtures every single-token deletion/duplication, byte-prefix truncation, byte corruption and token replacement by each alphabet token; every string slot x 14 awkward strings and numeric slot x 25 edge literals; nesting/size series to 10^5 (10^6) and 13 include graphs in isolated subprocesses. Violation: panic, process death (stack overflow), no result within 60-180 s, or an error without a source position.",
+            "Every token sequence of length <=3 (thorough 4) over a 90-token adversarial alphabet through ParseSourceBytes/UncheckedParse/ParseValExp/FormatSrcBytes; for each of the repository's ~60 .mro fixtures every single-token deletion/duplication, byte-prefix truncation, byte corruption and token replacement by each alphabet token; every string slot x 14 awkward strings and numeric slot x 25 edge literals; nesting/size series to 10^5 (10^6), 13 include graphs, and - through what mro check does, compile then call graph of the top-level call - cycles of 1-3 pipelines and every top-level call form {call, map call, local, preflight, volatile} x callee {stage, pipeline, undefined, struct} x 13 binding forms, all in isolated subprocesses. Violation: panic, process death (stack overflow), no result within 60-180 s, or an error without a source position.",
             "the space of all byte strings is approximated by these bounds; time limits are only a hang detector (no proportionality measurement below it)",
             "DESIGN.md 4/C08"),
     "C09": ("exploration",
@@ -87,17 +87,17 @@ CHECKS = {
             "DESIGN.md 4/C19"),
     "C15": ("exploration",
             "exhaustive site x edit-catalogue enumeration over base programs, two-sided EquivalentCall oracle plus real re-attach",
-            "10 base programs (nested sub-pipelines, map calls, split stage, struct narrowing, projections, preflight, aliases, nested disabled modifiers, file types, retains) x every applicable site of 11 semantic edit kinds (rename call, change literal/top argument, add stage input/output, retype parameter, toggle split, retarget return, change/remove/add disabled) and 6 cosmetic kinds (reorder declarations, rename file type, add unused declarations, reformat, comments, whitespace): EquivalentCall must be false both ways for semantic and true both ways for cosmetic edits; the first site of each (base, kind) also goes through InvokePipeline + ReattachToPipestance(checkSrc) on a real pipestance directory; attach while locked must be refused and after unlock accepted.",
+            "10 base programs (nested sub-pipelines, map calls, split stage, struct narrowing, projections, preflight, aliases, nested disabled modifiers, file types, retains) x every applicable site of 22 semantic edit kinds (same call name with a callee of a different signature declared on both sides, retyped unused outputs, collection-literal shape edits, rename call, change literal/top argument, add stage input/output, retype parameter, toggle split, retarget return, change/remove/add disabled) and 6 cosmetic kinds (reorder declarations, rename file type, add unused declarations, reformat, comments, whitespace): EquivalentCall must be false both ways for semantic and true both ways for cosmetic edits; the first site of each (base, kind) also goes through InvokePipeline + ReattachToPipestance(checkSrc) on a real pipestance directory; attach while locked must be refused and after unlock accepted.",
             "edits documented as ignored (retain, resources, volatile, chunk params) and switching the callee under an unchanged call name are outside the catalogue (unspecified)",
             "DESIGN.md 4/C15"),
     "C16": ("exploration",
             "bounded-exhaustive signature x value x split-subset enumeration through both converters, exact-decimal JSON comparison; per-fork _invocation files of real runs",
-            "Stage signatures with one parameter over 75 types (9 base types x array depth 0-2 x typed-map nesting 0-2) x every value of per-type edge lists (nested structs, typed maps, nulls, +-2^53+-1, int64 limits, 1e21, 5e-324, -0.0, strings with escapes/NUL/non-ASCII, empty collections), split over an array / a typed map / an empty array; all ordered pairs of types with all four split subsets: BuildCallSource -> compile -> InvocationDataFromSource -> BuildCallSource must preserve call name, include, split set and every argument value (numbers compared as exact decimals) and be text-stable. Additionally the _invocation file of every stage fork of nine real pipestance runs must compile against the stage's file and carry the arguments the fork's job received.",
+            "Stage signatures with one parameter over 75 types (9 base types x array depth 0-2 x typed-map nesting 0-2) x every value of per-type edge lists (nested structs, typed maps, nulls, +-2^53+-1, int64 limits, 1e21, 5e-324, -0.0, strings with escapes/NUL/non-ASCII, empty collections; every JSON escape spelling - \\u0000-\\u00ff, boundary code units, a surrogate pair, the named escapes - as a string value and as a typed-map key), split over an array / a typed map / an empty array; all ordered pairs of types with all four split subsets: BuildCallSource -> compile -> InvocationDataFromSource -> BuildCallSource must preserve call name, include, split set and every argument value (numbers compared as exact decimals) and be text-stable. Additionally the _invocation file of every stage fork of nine real pipestance runs must compile against the stage's file and carry the arguments the fork's job received.",
             "three-parameter signatures and types deeper than two levels are thorough-only / not covered",
             "DESIGN.md 4/C16"),
     "C17": ("exploration",
             "bounded-exhaustive (type, JSON value) enumeration with single-point near-miss mutations against a three-valued reference validator and reference filter",
-            "120 types (14 base types incl. six structs x array depth 0-2 x typed-map nesting 0-2); for each a generated set of valid values and every single-point near-miss mutation (wrong kind at each node, 1.0/1.5, extra nesting, extra/missing field), in compact and oddly spaced raw JSON (about 6*10^4 distinct pairs in quick); checks: IsValidJson agrees with the reference wherever it is decided and accepts null; FilterJson is idempotent, equals the reference filter (drops undeclared fields, integral floats to ints) and its result validates; for every ordered type pair (S,D) with D assignable from S every valid S value filtered to D validates for D; assignability is reflexive and component-wise for arrays, typed maps and structs over all 120^2 pairs.",
+            "120 types (14 base types incl. six structs x array depth 0-2 x typed-map nesting 0-2); for each a generated set of valid values and every single-point near-miss mutation (wrong kind at each node, 1.0/1.5, extra nesting, extra/missing field), in compact and oddly spaced raw JSON (about 6*10^4 distinct pairs in quick); checks: IsValidJson agrees with the reference wherever it is decided and accepts null; a departure from the declared shape other than a non-string for a user file type must be refused with an error, not only an alarm; FilterJson is idempotent, equals the reference filter (drops undeclared fields, integral floats to ints) and its result validates; for every ordered type pair (S,D) with D assignable from S every valid S value filtered to D validates for D; assignability is reflexive and component-wise for arrays, typed maps and structs over all 120^2 pairs.",
             "values deeper than the generator bound and mutations beyond one point are not covered; integral floats for int, integers beyond int64 and undeclared fields are unspecified for validation",
             "DESIGN.md 4/C17"),
     "C18": ("exploration",
